@@ -87,6 +87,31 @@ try:
     uncommit(co.branch, tree=co)
     if master.branch.last_revision_info() != co.branch.last_revision_info():
         verdict(True, "bound uncommit left master and local tips different")
+    # bound branch diverged from its master at the SAME revision number: still out of date, still refused, master untouched
+    d3, m3 = new_tree("master3")
+    open(os.path.join(d3, "x"), "w").write("1\n"); m3.add(["x"]); m3.commit("m1", committer="t <t@e.x>")
+    co3 = m3.branch.create_checkout(os.path.join(base, "co3"))
+    open(os.path.join(base, "co3", "x"), "w").write("local\n")
+    co3.commit("local only", committer="t <t@e.x>", local=True)
+    open(os.path.join(d3, "x"), "w").write("master\n")
+    m3.commit("master only", committer="t <t@e.x>")
+    msnap, csnap = m3.branch.last_revision_info(), co3.branch.last_revision_info()
+    if msnap[0] != csnap[0] or msnap[1] == csnap[1]:
+        verdict(False, "could not build the diverged-at-equal-revno scenario")
+    try:
+        uncommit(co3.branch, tree=co3)
+        verdict(True, "uncommit on a bound branch diverged from its master (equal revno, different tips) was not refused",
+                observed="master %s -> %s" % (msnap, m3.branch.last_revision_info()))
+    except Exception as e:  # noqa
+        if type(e).__name__ != "BoundBranchOutOfDate":
+            verdict(True, "diverged bound branch: wrong refusal", observed=repr(e))
+    if m3.branch.last_revision_info() != msnap or co3.branch.last_revision_info() != csnap:
+        verdict(True, "refused uncommit on a diverged bound branch changed a tip",
+                observed="master %s local %s" % (m3.branch.last_revision_info(), co3.branch.last_revision_info()))
+    # local=True never touches the master
+    uncommit(co3.branch, tree=co3, local=True)
+    if m3.branch.last_revision_info() != msnap:
+        verdict(True, "uncommit --local moved the master tip")
     verdict(False, "no failing scenario")
 finally:
     shutil.rmtree(base, ignore_errors=True)
